@@ -112,6 +112,10 @@ type runInfo struct {
 	Deps                 map[string]int
 	StartInitial         bool // `initial` as StartExecution was told
 	StartIdx             int
+	// the computation of a subscription returned an error caused by context.Canceled while its context was still alive
+	// when the observer looked: whether the connection then found the context cancelled (silent close) or not (an
+	// ordinary failure) is decided by what it did: an error envelope / a retry, or a close without an envelope
+	Ambig bool
 }
 
 type genInfo struct {
@@ -179,6 +183,17 @@ func analyze(evs []Event) *view {
 			case "conn.spawnClose":
 				v.spawned++
 				for _, n := range v.runOrder {
+					// an undecided computation of this generation that has written nothing: the silent path
+					if r := v.runs[n]; r.Gen == e.Gen && r.Ambig && !r.Written {
+						r.Ambig = false
+						r.End.Cancel = true
+						r.ExpectSpawn = true
+						if r.Gen >= 0 && r.Gen < len(v.gens) {
+							v.gens[r.Gen].Dead = true
+						}
+					}
+				}
+				for _, n := range v.runOrder {
 					r := v.runs[n]
 					if r.Gen == e.Gen && r.Ended && r.ExpectSpawn && !r.Spawned {
 						r.Spawned = true
@@ -233,6 +248,8 @@ func analyze(evs []Event) *view {
 				r.ExpectWrite, r.ExpectSpawn = true, true
 			} else if e.Err == "" {
 				r.ExpectWrite = e.Initial || diff.Diff(e.Previous, e.Current) != nil
+			} else if e.CauseCancel && !e.Cancel {
+				r.Ambig = true
 			} else {
 				r.ExpectWrite = !e.Cancel && e.Initial
 				r.ExpectSpawn = e.Cancel || e.Initial
@@ -246,6 +263,14 @@ func analyze(evs []Event) *view {
 					g.Dead = true
 				}
 			}
+		case "rx":
+			if e.Point == "retry" {
+				for _, n := range v.runOrder {
+					if r := v.runs[n]; r.Gen == e.Gen && r.Ambig {
+						v.decideFailure(r)
+					}
+				}
+			}
 		case "register":
 			v.registered[e.Res] = e.Gen
 		case "cleanup":
@@ -257,12 +282,14 @@ func analyze(evs []Event) *view {
 			if e.Run >= 0 {
 				if r := v.runs[e.Run]; r != nil {
 					r.Written, r.WriteIdx = true, i
+					v.decideFailure(r)
 				}
 			}
 		case "write":
 			if e.Run >= 0 {
 				if r := v.runs[e.Run]; r != nil {
 					r.Written, r.WriteIdx = true, i
+					v.decideFailure(r)
 					if t, _ := e.Env["type"].(string); t == "update" && r.Gen >= 0 && r.Gen < len(v.gens) {
 						v.gens[r.Gen].Updates++
 					}
@@ -273,11 +300,29 @@ func analyze(evs []Event) *view {
 	return v
 }
 
+// decideFailure: an undecided computation (see runInfo.Ambig) wrote its error envelope, or the rerunner reported a
+// retry: the connection took the ordinary failure path.
+func (v *view) decideFailure(r *runInfo) {
+	if !r.Ambig {
+		return
+	}
+	r.Ambig = false
+	r.End.Cancel = false
+	r.ExpectWrite = r.End.Initial
+	r.ExpectSpawn = r.End.Initial
+	if r.ExpectSpawn && r.Gen >= 0 && r.Gen < len(v.gens) {
+		v.gens[r.Gen].Dead = true
+	}
+}
+
 func (v *view) runsInFlight() (bool, string) {
 	for _, n := range v.runOrder {
 		r := v.runs[n]
 		if !r.Ended {
 			return true, fmt.Sprintf("run %d of generation %d has not finished", r.N, r.Gen)
+		}
+		if r.Ambig {
+			return true, fmt.Sprintf("run %d of generation %d failed with context.Canceled: the connection has not yet shown which path it took", r.N, r.Gen)
 		}
 		if r.ExpectWrite && !r.Written {
 			return true, fmt.Sprintf("run %d of generation %d has not written", r.N, r.Gen)
@@ -430,6 +475,9 @@ func (p *player) quiescent(v *view) (bool, string) {
 	if n := p.w.ShortTimers(); n > 0 {
 		return false, fmt.Sprintf("%d short timers are armed", n)
 	}
+	if p.w.DeadlinePending() {
+		return false, "the deadline of `phase` has not passed yet"
+	}
 	if v.cancelled {
 		return true, ""
 	}
@@ -448,6 +496,10 @@ func (p *player) quiescent(v *view) (bool, string) {
 		}
 		for f, ver := range g.LastOK.Deps {
 			if cur := p.w.Version(f); cur != ver {
+				if f == "phase@clock" && p.idleSettle(v, f, g.Gen) {
+					// the clock moved past the deadline and nothing has happened for two seconds: see below
+					continue
+				}
 				return false, fmt.Sprintf("generation %d (%s) read %s at version %d, current %d", g.Gen, g.ID, f, ver, cur)
 			}
 		}
@@ -481,11 +533,7 @@ func (p *player) quiescent(v *view) (bool, string) {
 		for _, id := range CachedDetailIDs(p.res.Fed[g.Msg].Q, p.w.ItemsNow()) {
 			f := DetailField(id)
 			if ver, ok := g.Latest[f]; !ok || ver != p.w.Version(f) {
-				if idle := time.Since(v.lastT); !v.lastT.IsZero() && idle > 2*time.Second {
-					if !p.res.IdleSettled {
-						p.res.IdleSettled = true
-						p.rec.add(Event{Kind: "idle-settle", Field: f, Gen: g.Gen})
-					}
+				if p.idleSettle(v, f, g.Gen) {
 					return true, ""
 				}
 				return false, fmt.Sprintf("generation %d (%s) has executed %s at version %d (%v), current %d", g.Gen, g.ID, f, ver, ok, p.w.Version(f))
@@ -493,6 +541,19 @@ func (p *player) quiescent(v *view) (bool, string) {
 		}
 	}
 	return true, ""
+}
+
+// idleSettle: nothing at all has happened for two seconds although a subscription has not caught up with the data: the
+// point is taken as quiescent (what the snapshot shows is reported only if the case shows it twice, see Main).
+func (p *player) idleSettle(v *view, field string, gen int) bool {
+	if v.lastT.IsZero() || time.Since(v.lastT) <= 2*time.Second {
+		return false
+	}
+	if !p.res.IdleSettled {
+		p.res.IdleSettled = true
+		p.rec.add(Event{Kind: "idle-settle", Field: field, Gen: gen})
+	}
+	return true
 }
 
 // clientLive: the client sent the subscribe that created g, got no error for it and has not sent an
@@ -649,6 +710,15 @@ func (p *player) play(i int, o Op) {
 			}
 		}
 		p.applySet(o)
+	case "deadline":
+		// the field `phase` gets a new deadline (Int milliseconds from now, possibly in the past); its resolver will
+		// work for N milliseconds between reading the clock and registering the deadline
+		p.w.mu.Lock()
+		p.w.Deadline = time.Now().Add(time.Duration(o.Int) * time.Millisecond)
+		p.w.SlowMs = o.N
+		p.w.mu.Unlock()
+		p.rec.add(Event{Kind: "touch", Field: "phase"})
+		p.w.Touch("phase", false)
 	case "awaitruns":
 		// wait (briefly) until N more computations have completed than when the last `set` was played
 		deadline := time.Now().Add(400 * time.Millisecond)
